@@ -42,7 +42,8 @@ type Float struct {
 	// an operation be modelled as an absolute (linear) term instead of a relative (non-linear) one
 	HasIv  bool
 	Lo, Hi float64
-	IntR   string // relaxed mode: an SMT Int term equal to the (integer) value
+	IntR   string // relaxed mode: an SMT Int term k such that the value is exactly k * 2^Scale
+	Scale  int
 }
 
 // Wide is a ghost mathematical integer (192-bit two's complement symbolically).
@@ -592,6 +593,28 @@ func iCmp(op string, a, b Int) Bool {
 			if same {
 				return mkBool(false)
 			}
+		}
+	}
+	// relaxed float mode: values with an SMT Int twin are compared in the Int domain (keeps
+	// bit-vectors out of the real-arithmetic queries)
+	if a.Signed && (a.RI != "" || a.IsC) && (b.RI != "" || b.IsC) && a.Off == 0 && b.Off == 0 {
+		ri := func(v Int) string {
+			if v.IsC {
+				if v.sval() < 0 {
+					return fmt.Sprintf("(- %d)", -v.sval())
+				}
+				return fmt.Sprint(v.sval())
+			}
+			return v.RI
+		}
+		x, y := ri(a), ri(b)
+		switch op {
+		case "==":
+			return symBool("(= " + x + " " + y + ")")
+		case "!=":
+			return symBool("(not (= " + x + " " + y + "))")
+		case "<", "<=", ">", ">=":
+			return symBool("(" + op + " " + x + " " + y + ")")
 		}
 	}
 	x, y := a.T(), b.T()
